@@ -49,7 +49,8 @@ var timerRows = []timerRow{
 		[]string{"protocol/req.(*context).RecvMsg"},
 		"protocol/req.(*context).cancel"},
 	{"protocol/req.context.resendTimer",
-		[]string{"protocol/req.(*context).cancel", "protocol/req.(*pipe).receiver"},
+		// send stops the timer of the previous transmission before it arms the next (D18)
+		[]string{"protocol/req.(*context).cancel", "protocol/req.(*pipe).receiver", "protocol/req.(*socket).send"},
 		[]string{"protocol/req.(*socket).send"},
 		"protocol/req.(*context).cancel"},
 }
@@ -901,4 +902,252 @@ func everyPathModuloNil(stop ssa.Instruction, par *ssa.Parameter) bool {
 		}
 	}
 	return everyPath(target.Instrs[len(target.Instrs)-1])
+}
+
+// rearmStopsPrevious: a timer field is given a new timer only where the one it may still hold
+// cannot fire any more: the store is dominated by a Stop of that field (directly or through a
+// helper handed its address), or lies under a test that the field is nil, or the arming
+// function runs only as (part of) that very timer's callback — the old timer has fired — or
+// the object is under construction.  An overwritten timer that is still pending fires into the
+// object a second time: REQ re-sent a request one interval after its *first* transmission
+// although it had just been re-sent because the connection was lost (D18).
+func rearmStopsPrevious(p *Prog, r *Report, R string, inPkg func(rel string) bool) {
+	r.Describe(R, "a timer field is re-armed only after the timer it may still hold was stopped (a Stop of that field dominates the store), or under a test that it is nil, or from that timer's own callback, or while the object is under construction: a pending timer that is merely overwritten still fires, and the action it was armed for happens a second time, early")
+	n := 0
+	for _, fn := range p.Funcs {
+		rel, _ := p.FuncRel(fn)
+		if !inPkg(rel) {
+			continue
+		}
+		EachInstr(fn, func(in ssa.Instruction) {
+			st, ok := in.(*ssa.Store)
+			if !ok {
+				return
+			}
+			fa, ok := st.Addr.(*ssa.FieldAddr)
+			if !ok {
+				return
+			}
+			pt, ok := fa.Type().(*types.Pointer)
+			if !ok || !isTimerPtr(pt.Elem()) {
+				return
+			}
+			call, ok := st.Val.(*ssa.Call)
+			if !ok {
+				return
+			}
+			cn := CalleeName(&call.Call)
+			if cn != "time.AfterFunc" && cn != "time.NewTimer" {
+				return
+			}
+			n++
+			k := fieldKeyOf(fa)
+			fld := k[strings.LastIndex(k, ".")+1:]
+			key := p.FuncName(fn) + "/" + fld
+			base := Desc(fa.X)
+			ok2, why := false, ""
+			if freshBase(fa.X, 0) || p.freshParamBase(fn, fa.X) {
+				ok2, why = true, "the object is under construction"
+			}
+			// a Stop of the same field (same object) that dominates the store
+			if !ok2 {
+				EachInstr(fn, func(i2 ssa.Instruction) {
+					if ok2 {
+						return
+					}
+					c := CallOf(i2)
+					if c == nil || !InstrDominates(i2, st) {
+						return
+					}
+					if CalleeName(c) == "time.(*Timer).Stop" && len(c.Args) > 0 {
+						if d := Desc(c.Args[0]); d == base+"."+fld {
+							ok2, why = true, "the previous timer is stopped first"
+						}
+					}
+					if sc := c.StaticCallee(); sc != nil && p.moduleFunc(sc) && sc.Blocks != nil {
+						for ai, a := range c.Args {
+							if fa2, isFA := a.(*ssa.FieldAddr); isFA && ai < len(sc.Params) && fieldKeyOf(fa2) == k && Desc(fa2.X) == base {
+								if stops, _, _, _ := timerParamEffects(p, sc, sc.Params[ai]); stops {
+									ok2, why = true, "the previous timer is stopped first (through "+sc.Name()+")"
+								}
+							}
+						}
+					}
+				})
+			}
+			// ... or the Stop sits under `if field != nil`, and that test dominates the store
+			if !ok2 {
+				storeGuards := map[string]bool{}
+				for _, g := range p.GuardStrings(in) {
+					storeGuards[g] = true
+				}
+				EachInstr(fn, func(i2 ssa.Instruction) {
+					if ok2 {
+						return
+					}
+					c := CallOf(i2)
+					if c == nil || CalleeName(c) != "time.(*Timer).Stop" || len(c.Args) == 0 || Desc(c.Args[0]) != base+"."+fld {
+						return
+					}
+					nilAtom := base + "." + fld + " != nil"
+					hasNil, extra := false, false
+					for _, g := range p.GuardStrings(i2) {
+						if g == nilAtom {
+							hasNil = true
+						} else if !storeGuards[g] {
+							extra = true
+						}
+					}
+					if !hasNil || extra {
+						return
+					}
+					// the block that makes the nil test dominates the store
+					for _, b := range fn.Blocks {
+						if len(b.Instrs) == 0 {
+							continue
+						}
+						iff, isIf := b.Instrs[len(b.Instrs)-1].(*ssa.If)
+						if !isIf {
+							continue
+						}
+						a := NormAtom(iff.Cond, true)
+						if (a == nilAtom || a == base+"."+fld+" == nil") && (b == st.Block() || b.Dominates(st.Block())) && (b.Dominates(i2.Block())) && CanPrecede(blockReach(fn), i2, st) {
+							ok2, why = true, "the previous timer is stopped first wherever it is set"
+						}
+					}
+				})
+			}
+			// ... or a call that dominates the store to a method of the same object that stops it
+			// (req SendMsg calls cancel(), which stops and clears all three timers)
+			if !ok2 {
+				EachInstr(fn, func(i2 ssa.Instruction) {
+					if ok2 {
+						return
+					}
+					c := CallOf(i2)
+					if c == nil || c.IsInvoke() || !InstrDominates(i2, st) || len(c.Args) == 0 || Desc(c.Args[0]) != base {
+						return
+					}
+					sc := c.StaticCallee()
+					if sc == nil || !p.moduleFunc(sc) || sc.Blocks == nil {
+						return
+					}
+					stops := false
+					EachInstr(sc, func(i3 ssa.Instruction) {
+						if c3 := CallOf(i3); c3 != nil && CalleeName(c3) == "time.(*Timer).Stop" && len(c3.Args) > 0 && Desc(c3.Args[0]) == "recv."+fld {
+							stops = true
+						}
+					})
+					if stops {
+						ok2, why = true, "the previous timer is stopped first (by "+sc.Name()+")"
+					}
+				})
+			}
+			if !ok2 {
+				if reason, listed := rearmAllowed[key]; listed {
+					ok2, why = true, "frozen exception: "+reason
+				}
+			}
+			if !ok2 {
+				for _, g := range p.GuardStrings(in) {
+					if g == base+"."+fld+" == nil" {
+						ok2, why = true, "armed only where the field is nil"
+					}
+				}
+			}
+			// armed only from this timer's own callback: every way into the function starts
+			// at a closure or method value that is the callback of an arming of this field
+			if !ok2 && p.onlyFromOwnCallback(fn, k, map[*ssa.Function]bool{}, 0) {
+				ok2, why = true, "runs only as the callback of this timer (the previous one has fired)"
+			}
+			r.Check(ok2, R, key, p.InstrPos(in), why, "the timer field "+k+" is given a new timer here while the previous one may still be pending (no Stop of it dominates the store, no nil test, not its own callback): the old timer still fires, and what it was armed for happens again, sooner than one interval after this arming")
+		})
+	}
+	r.Count("timer_armings."+R, n)
+}
+
+// rearmAllowed: armings whose previous timer is known to be spent for a reason the rule cannot
+// see locally; one line of reason each.
+var rearmAllowed = map[string]string{
+	"protocol/req.(*context).RecvMsg/receiveTimer": "one Recv at a time (the receiveWait token); every way its wait ends stops the timer (a reply: receiver; a newer Send or Close: cancel) or is the timer's own firing (timer table C18.3: stoppers of receiveTimer)",
+	"internal/core.(*dialer).pipeClosed/redialer":  "a dialer has one pipe at a time and tells pipeClosed once per pipe (closeOnce); the timer that led to that pipe's dial has fired, and nothing arms another while the pipe is up (timer table C14.13: armers of redialer)",
+	"internal/core.(*dialer).dial/redialer":        "dial runs from the redial callback (the timer has fired) or as the first attempt of Dial, which the active flag admits once, before any timer exists (C14.1, C14.13)",
+}
+
+// onlyFromOwnCallback: every caller chain of fn (inside the module) starts at a function that
+// is handed to time.AfterFunc in a store to the timer field k.
+func (p *Prog) onlyFromOwnCallback(fn *ssa.Function, k string, seen map[*ssa.Function]bool, depth int) bool {
+	if seen[fn] || depth > 5 {
+		return true
+	}
+	seen[fn] = true
+	if p.isCallbackOfField(fn, k) {
+		return true
+	}
+	node := p.CG().Nodes[fn]
+	if node == nil || len(node.In) == 0 {
+		return false
+	}
+	if o := fn.Object(); o != nil && o.Exported() {
+		return false
+	}
+	n := 0
+	for _, e := range node.In {
+		c := e.Caller.Func
+		if c == nil || !p.moduleFunc(c) {
+			// the runtime's timer goroutine calling a callback shows up as no module caller
+			continue
+		}
+		n++
+		if !p.onlyFromOwnCallback(c, k, seen, depth+1) {
+			return false
+		}
+	}
+	return n > 0
+}
+
+// isCallbackOfField: fn (a closure, a bound-method wrapper's target or a method) is the
+// function argument of a time.AfterFunc whose result is stored into timer field k.
+func (p *Prog) isCallbackOfField(fn *ssa.Function, k string) bool {
+	found := false
+	for _, g := range p.Funcs {
+		EachInstr(g, func(in ssa.Instruction) {
+			if found {
+				return
+			}
+			st, ok := in.(*ssa.Store)
+			if !ok {
+				return
+			}
+			fa, ok := st.Addr.(*ssa.FieldAddr)
+			if !ok || fieldKeyOf(fa) != k {
+				return
+			}
+			call, ok := st.Val.(*ssa.Call)
+			if !ok || CalleeName(&call.Call) != "time.AfterFunc" || len(call.Call.Args) < 2 {
+				return
+			}
+			switch cb := call.Call.Args[1].(type) {
+			case *ssa.MakeClosure:
+				if f, ok := cb.Fn.(*ssa.Function); ok {
+					if f == fn {
+						found = true
+					}
+					// a bound method value: the wrapper calls the method
+					if f.Synthetic != "" {
+						EachInstr(f, func(i2 ssa.Instruction) {
+							if c := CallOf(i2); c != nil && c.StaticCallee() == fn {
+								found = true
+							}
+						})
+					}
+				}
+			case *ssa.Function:
+				if cb == fn {
+					found = true
+				}
+			}
+		})
+	}
+	return found
 }
